@@ -617,7 +617,7 @@ func eventStreamRun(keyed bool) func(h []dsim.Rec) {
 		count("cov:node-closed-midway")
 		e.node.Close()
 	} else {
-		if !d.wait(120 * time.Second) {
+		if !d.wait(time.Duration(depth(120, 1200)) * time.Second) {
 			dsim.Failf("harness", "peer scripts did not finish")
 		}
 		e.mu.Lock()
@@ -688,7 +688,7 @@ func eventStreamRun(keyed bool) func(h []dsim.Rec) {
 func init() {
 	register(&Prop{
 		ID:         "C10",
-		MaxSteps:   400000,
+		MaxSteps:   2000000,
 		Horizon:    40 * 365 * 24 * time.Hour,
 		Body:       c10Body,
 		HangOracle: "",
